@@ -43,7 +43,7 @@ TIERS = {
                      props=dict(MaxOps=3, MaxCrashes=1, Ops="OpsQuick"), props2=dict(MaxOps=3, MaxCrashes=2, Ops="OpsQuick"),
                      budget=1200, sem_dedupe=False, text_len=3, text_budget=300, extra_workloads=40,
                      legacy=dict(MaxOps=3, MaxCrashes=1, Ops="OpsQuick"),
-                     two=dict(MaxOps=2, MaxCrashes=1, Ops="OpsTwo"), conc=60),
+                     two=dict(MaxOps=3, MaxCrashes=1, Ops="OpsTwo"), two_props=dict(MaxOps=2, MaxCrashes=1, Ops="OpsTwo"), conc=60),
 }
 # invariants of ModelDB.tla the code as it is now satisfies (asserted: a violation is a machinery error = the spec is wrong)
 HOLDING = ["TypeOK", "PendingGuards", "DatainfoLast", "IndexImpliesComplete", "LocksScoped", "LogHeaderOK",
@@ -55,8 +55,8 @@ LEGACY_HOLDING = ["TypeOK", "PendingGuards", "DatainfoLast", "LocksScoped", "Cle
 LEGACY_INVARIANTS = [("InvI", "I"), ("InvIOther", "I"), ("InvDOther", "D"), ("InvAnn", "L"), ("InvLogNoTorn", "L")]
 # two processes
 TWO_HOLDING = ["TypeOK", "PendingGuards", "DatainfoLast", "IndexImpliesComplete", "LocksScoped", "Exclusion",
-               "InvDOther", "InvA", "InvAnn"]
-TWO_INVARIANTS = [("InvI", "I"), ("InvLogNoTorn", "L")]
+               "LogHeaderOK", "InvLogNoTorn", "InvDOther", "InvA", "InvAnn"]
+TWO_INVARIANTS = [("InvIOpen", "I"), ("InvIStore", "I")]  # expected to fail: racing constructors (log.tmp), racing store_key
 ACTIONS = ["InitDirs", "OpenLogTmp", "CloseLogTmp", "RenameLog", "InitCommon", "MkKeyDirs", "TouchLock", "LockEx", "TouchPending",
            "ListHashDir", "ReadDatainfo", "MkHashDir", "ScanDatasetNumbers", "TouchIndex", "OpenCsv", "CloseCsv",
            "OpenDatainfo", "CloseDatainfo", "MkModelDir", "OpenModel", "CloseModel", "MkMetaDir", "OpenResults",
@@ -800,7 +800,7 @@ def main(tier: str, seed: int) -> int:
         if T.get("two"):
             w_two = _bg(_run_design, _cfg("ModelDB2P.cfg", sc, "two.cfg", T["two"], TWO_HOLDING), 8)
             for inv, letter in TWO_INVARIANTS:
-                w_twoprops.append((inv, letter, _bg(_run_prop, _cfg("ModelDB2P.cfg", sc, f"two_{inv}.cfg", T["two"], [inv]), sc / f"trace_two_{inv}.json", nw)))
+                w_twoprops.append((inv, letter, _bg(_run_prop, _cfg("ModelDB2P.cfg", sc, f"two_{inv}.cfg", T["two_props"], [inv]), sc / f"trace_two_{inv}.json", nw)))
 
         chosen, nsig = _select_workloads(cases, tier, rng, T["extra_workloads"])
         workloads = [_ops_of_case(c) for c in chosen]
